@@ -74,6 +74,10 @@ pub struct DirScript {
     /// instead of its own (sent when its own first bytes arrive, cut at `cuts`); its own bytes are dropped
     #[serde(default)]
     pub splice_first_conn: bool,
+    /// with `splice_first_conn`: the later connection gets the withheld stream as soon as it is established, before its own
+    /// sender has sent anything (an application that has opened its tunnel and is still silent)
+    #[serde(default)]
+    pub splice_at_once: bool,
     /// TLS carrier: the link node terminates TLS on both of its sockets (it holds the simulated certificate's key) and
     /// forwards the *plaintext* stream under this script; every forwarded piece is written and flushed on its own, i.e.
     /// travels as TLS record(s) of its own, so `cuts` are record boundaries as seen by the receiver's TLS layer
@@ -200,7 +204,7 @@ where
             continue;
         }
         if script.splice_first_conn && conn >= 1 {
-            if base == 0 {
+            if base == 0 && !script.splice_at_once {
                 let other = {
                     let o = rec.lock().unwrap();
                     if is_c2s { o.c2s[0].clone() } else { o.s2c[0].clone() }
@@ -599,8 +603,28 @@ where
 {
     {
         {
-            let (ir, iw) = tokio::io::split(inbound);
-            let (or, ow) = tokio::io::split(outbound);
+            let (ir, mut iw) = tokio::io::split(inbound);
+            let (or, mut ow) = tokio::io::split(outbound);
+            for (script, is_c2s) in [(&c2s, true), (&s2c, false)] {
+                if script.splice_first_conn && script.splice_at_once && conn >= 1 {
+                    let other = {
+                        let o = obs.lock().unwrap();
+                        if is_c2s { o.c2s[0].clone() } else { o.s2c[0].clone() }
+                    };
+                    let mut from = 0usize;
+                    for &k in script.cuts.iter().map(|c| *c as usize).chain(std::iter::once(other.len())).collect::<Vec<_>>().iter() {
+                        if k > from && k <= other.len() {
+                            let r = if is_c2s { ow.write_all(&other[from..k]).await } else { iw.write_all(&other[from..k]).await };
+                            if r.is_err() {
+                                break;
+                            }
+                            let _ = if is_c2s { ow.flush().await } else { iw.flush().await };
+                            tokio::time::sleep(Duration::from_millis(script.gap_ms.max(1))).await;
+                            from = k;
+                        }
+                    }
+                }
+            }
             if c2s.reflect || s2c.reflect {
                 // reflection: what the client sends comes back to the client (and/or the server's bytes to the server)
                 let (tx_c, mut rx_c) = tokio::sync::mpsc::unbounded_channel::<Vec<u8>>();
